@@ -110,6 +110,9 @@ func genPortionsCase(rt *rapid.T) tracesCase {
 			add(tg("pda"), t, w.To+r64(rt, 1, 4, "da")*nsDay+r64(rt, 0, 86399, "dao")*nsSec, w.To, far)
 		}
 	}
+	if m, ok := w.middleDay(); ok {
+		add(fmt.Sprintf("t%d-mid", nTraces), nTraces, m+r64(rt, 0, 3600, "midOff")*nsSec, w.From, w.To-1)
+	}
 	c.Ver = genVer(rt)
 	return c
 }
